@@ -74,7 +74,7 @@ func proposalProp(c propCase) common.Result {
 	} else if !panicked {
 		honest := w.PoolValid(idx) && (!useAgg || (built.AllHonest && built.BestValidView == int64(cs.PoolBlockView[idx]) && attested(c.Agg, idx)))
 		if honest {
-			if c.Scheme == "bls12" && (kit.QuirkQC(w.Members[c.Verif-1], qc) || (useAgg && kit.QuirkAgg(w.Members[c.Verif-1], *agg))) {
+			if c.Scheme == "bls12" && (kit.QuirkQC(w.Members[c.Verif-1], qc, err) || (useAgg && kit.QuirkAgg(w.Members[c.Verif-1], *agg, err))) {
 				return common.Fail(kit.KnownBLS, "an honest proposal is rejected (%v) although the signatures satisfy the verification equation in other arrangements\n%s", err, desc)
 			}
 			return common.Fail("anyqc-rejects-honest", "an honest proposal (valid block certificate that is the aggregate's highest attested one) was REJECTED: %v\n%s", err, desc)
